@@ -62,6 +62,8 @@ class RGen:
     def emit(self, nodes, pool, depth, consts):
         t = self.t
         k = t.pick(19)
+        if k == 17 and self.gen >= 3 and self.fn_sigs:
+            k = 14  # (version 3: calls to model-local functions twice as often)
         if k in (17, 18):
             k = 15
         F23 = lambda: self.pick_kind(pool, "F23")
@@ -273,17 +275,30 @@ class RGen:
         reuse_local = self.gen >= 2 and t.pick(3) == 0
         reuse_tag = self.n
         for br in ("then", "else"):
-            bn, local = self.body(pool, depth, 1 + t.pick(3))
+            binits = []
+            if self.gen >= 3 and t.pick(6) == 0:
+                # a branch without nodes whose output is its own initializer (nothing consumes that initializer)
+                cname = self.fresh("bconst")
+                binits.append(nph.from_array(np.array([[1, 0, 2], [0.5, 3, -1]], dtype=np.float32) * (1 + t.pick(2)), name=cname))
+                branches.append(oh.make_graph([], f"{br}_{self.n}", [], [vinfo(cname, "F23")], initializer=binits))
+                self.features.add("nodeless_branch_returns_initializer")
+                continue
+            bn, local = self.body(pool, depth, (t.pick(3) if self.gen >= 3 else 1 + t.pick(3)))
             cands = [v for v, k in local if k == "F23"]
-            if cands and t.pick(4):
+            if cands and (t.pick(2) if self.gen >= 3 else t.pick(4)):
                 res = cands[t.pick(len(cands))]
             else:
                 # branch output produced by an Identity of a captured outer value
                 src = self.pick_kind(pool, "F23")
+                if self.gen >= 3:
+                    # ... preferably one that an outer node computes (its type is not declared anywhere in the proto)
+                    computed = [v for v, k in pool if k == "F23" and not v.startswith(("x", "w", "val_w"))]
+                    if computed and t.pick(3):
+                        src = computed[t.pick(len(computed))]
+                        self.features.add("identity_of_captured_computed_value")
                 res = self.fresh("br")
                 bn.append(oh.make_node("Identity", [src], [res], name=self.nname("Identity")))
                 self.features.add("identity_of_captured_value")
-            binits = []
             if t.flag("subgraph_initializer", 3):
                 # sibling subgraphs use the same initializer name on purpose (they collide when lifted to the main graph)
                 bname = ["bias", "w_sub"][t.pick(2)]
@@ -374,6 +389,30 @@ class RGen:
             self.fn_sigs["f3"] = (1, [])
             self.features.add("function_with_foreign_domain")
 
+    def make_functions_v3(self):
+        t = self.t
+        if "f0" in self.functions and t.pick(2) == 0:
+            # f4(x; scale) = f0(Neg(x), alpha=@scale): the attribute parameter is forwarded under ANOTHER name
+            c = oh.make_node("f0", ["t"], ["y"], domain="local", name="c4")
+            ra = c.attribute.add()
+            ra.name, ra.ref_attr_name, ra.type = "alpha", "scale", onnx.AttributeProto.FLOAT
+            f4 = oh.make_function("local", "f4", ["x"], ["y"], [oh.make_node("Neg", ["x"], ["t"], name="n4"), c],
+                                  [oh.make_opsetid("", self.opset), oh.make_opsetid("local", 1)], attributes=["scale"])
+            self.functions["f4"] = f4
+            self.fn_sigs["f4"] = (1, [("scale", "f", False)])
+            self.features.add("forwarded_attribute_renamed")
+            self.features.add("nested_function")
+        if "f1" in self.functions and t.pick(3) == 0:
+            # f5(x; axis=0 by default) = Identity(f1(x, x, axis=@axis)): same-named forwarding of a parameter that has a default
+            c = oh.make_node("f1", ["x", "x"], ["s"], domain="local", name="c5")
+            ra = c.attribute.add()
+            ra.name, ra.ref_attr_name, ra.type = "axis", "axis", onnx.AttributeProto.INT
+            f5 = oh.make_function("local", "f5", ["x"], ["y"], [c, oh.make_node("Identity", ["s"], ["y"], name="i5")],
+                                  [oh.make_opsetid("", self.opset), oh.make_opsetid("local", 1)], attribute_protos=[oh.make_attribute("axis", 0)])
+            self.functions["f5"] = f5
+            self.fn_sigs["f5"] = (1, [("axis", "i", True)])
+            self.features.add("nested_function")
+
     def call(self, nodes, pool):
         t = self.t
         names = sorted(self.fn_sigs)
@@ -394,6 +433,8 @@ class RGen:
         self.make_functions()
         if self.gen >= 2:
             self.make_functions_v2()
+        if self.gen >= 3:
+            self.make_functions_v3()
         inputs = [vinfo("x0", "F23"), vinfo("x1", "F23"), vinfo("cnd", "B")]
         pool = [("x0", "F23"), ("x1", "F23"), ("cnd", "B")]
         inits = []
